@@ -169,7 +169,7 @@ def run():
     r2 = core.run_tlc(ctx, 'OptionFlow', cfg, name='OptionFlow call-site coverage', workers=1)
     import re
     cov = {}
-    for m in re.finditer(r'<<"SITE", "(\w+)">>', r2['out']):
+    for m in re.finditer(r'<<\s*"SITE",\s*"(\w+)"\s*>>', r2['out']):
         cov[m.group(1)] = cov.get(m.group(1), 0) + 1
     dead = [a for a in ('Sift_GetNextImf', 'Ens_Pool_SiftWithNoise', 'Ceemd_Pool_SiftWithNoise', 'Ceemd_Pool_NoiseSift', 'SiftWithNoise_Sift',
                         'Mask_GetMaskFreqs', 'MaskFreqs_GetNextImf', 'Mask_GetNextImfMask', 'ImfMask_Pool_GetNextImf', 'Second_Sift', 'MaskSecond_MaskSift',
